@@ -7,6 +7,8 @@ sfx=""; [ -n "${VERIF_SEED:-}" ] && [ "${VERIF_SEED}" != 1 ] && sfx="_seed${VERI
 out=seeded/RESULTS_$tier$sfx.txt; : > $out.tmp
 for n in $names; do
   id=${n%%-*}
+  gone=$(python3 -c "import json;print(json.load(open('seeded/$n/meta.json')).get('no_longer_valid','')[:150])" 2>/dev/null)
+  if [ -n "$gone" ]; then echo "$n SUPERSEDED $gone" | tee -a $out.tmp; continue; fi
   other=$(python3 -c "import json;print(json.load(open('seeded/$n/meta.json')).get('caught_by_other_check',''))" 2>/dev/null)
   [ -n "$other" ] && id=$other
   line=$(./tools/try_mutant.sh seeded/$n/patch.diff $tier $id 2>&1 | grep -a "^CAUGHT\|^MISSED\|^INCONCLUSIVE\|patch does not apply\|not clean" | head -1 | cut -c1-260)
